@@ -75,10 +75,14 @@ func readObs(data []byte) (okLit string, rdLit string, nOut int, scales [][3]flo
 		return okLit, "[]", 0, nil, nil, fail
 	}
 	// the same bytes through every reader shape
-	shapeFail := shapeCheck("splat.Read", data, err == nil, meshDigest(m), func(in io.Reader) (*modeling.Mesh, error) {
+	dg := meshDigest(m)
+	shapeFail := shapeCheck("splat.Read", data, err == nil, dg, func(in io.Reader) (*modeling.Mesh, error) {
 		rm, e := splat.Read(in)
 		return &rm, e
 	})
+	if f := retainCheck("splat.Read", m, dg); f != "" && shapeFail == "" {
+		shapeFail = f
+	}
 	defer func() {
 		if fail == "" {
 			fail = shapeFail
@@ -161,6 +165,7 @@ func splatCaseWith(kind string, desc interface{}, d cloudDesc, m modeling.Mesh) 
 	}
 	var buf bytes.Buffer
 	var werr error
+	inDigest := meshDigest(m)
 	func() {
 		defer func() {
 			if rec := recover(); rec != nil {
@@ -172,6 +177,8 @@ func splatCaseWith(kind string, desc interface{}, d cloudDesc, m modeling.Mesh) 
 	out := buf.Bytes()
 	if werr != nil {
 		c.GoFail, c.FailKey = "splat.Write failed: "+werr.Error(), "splat:write-error"
+	} else if f := splatWriteSide(m, inDigest, out); f != "" {
+		c.GoFail, c.FailKey = f, "splat:write-side"
 	}
 	okLit, rdLit, nOut, scales, opac, fail := readObs(out)
 	if fail != "" && c.GoFail == "" {
@@ -203,6 +210,19 @@ func splatCaseWith(kind string, desc interface{}, d cloudDesc, m modeling.Mesh) 
 	return c
 }
 
+// splatWriteSide: splat.Write leaves the caller's mesh as it was, writes the same bytes when called again, and
+// reports an error when the destination cannot take the whole output.
+func splatWriteSide(m modeling.Mesh, inDigest string, out []byte) string {
+	if meshDigest(m) != inDigest {
+		return "splat.Write changed the mesh it was given"
+	}
+	var again bytes.Buffer
+	if err := guard(func() { splat.Write(&again, m) }); err != nil || !bytes.Equal(again.Bytes(), out) {
+		return "a second splat.Write of the same mesh produced different bytes"
+	}
+	return writeFailCheck("splat.Write", len(out), func(w io.Writer) error { return splat.Write(w, m) })
+}
+
 func splatReadCase(d bytesDesc) hx.Case {
 	data, _ := hex.DecodeString(d.Hex)
 	c := hx.Case{Kind: "splatread", Desc: d, Nontriv: len(data) >= 32, Key: "r|" + d.Hex}
@@ -216,7 +236,16 @@ func splatReadCase(d bytesDesc) hx.Case {
 
 // ---- generators ----
 
+// finite float64 positions at the edges of float32: overflow to +-Inf, largest finite, ties at the overflow
+// threshold, subnormals, underflow to +-0
+var posEdges = []float64{1e39, -1e39, math.MaxFloat32, -math.MaxFloat32, 3.4028235677973366e38, 3.4028235677973362e38,
+	1e-40, -1e-42, math.SmallestNonzeroFloat32, math.SmallestNonzeroFloat32 / 2, 1e-46, -1e-46, 1.1754943508222875e-38,
+	16777217, -16777219, 0.1, 1.0 / 3}
+
 func genPos(r *hx.Rng) float64 {
+	if r.Chance(1, 12) {
+		return hx.Pick(r, posEdges)
+	}
 	switch r.Intn(7) {
 	case 0:
 		return float64(r.Range(-5, 5))
@@ -376,6 +405,12 @@ func splatFixed(run *hx.Run) {
 		{FDC: [3]float64{colBoundary, -colBoundary, 1e6}, Opacity: 800, Rot: [4]float64{1, -1, 1, -1}},
 		{FDC: [3]float64{-1e6, 0, 1.7724538509055159}, Opacity: -800, Rot: [4]float64{127.0 / 128, 255.0 / 256, -127.0 / 128, 1.0 / 256}},
 	}}))
+	var edges []splatDesc
+	for k := 0; k+2 < len(posEdges); k += 3 {
+		edges = append(edges, splatDesc{Pos: [3]float64{posEdges[k], posEdges[k+1], posEdges[k+2]}, Rot: [4]float64{0, 0, 0, 1}})
+	}
+	run.Add(splatCase(cloudDesc{Splats: edges}))
+	run.Count("splat:float32-edge-positions")
 	// opacities over the whole logit range, -8 .. 8 in steps of 1/4 (alpha bytes 0 .. 254): every splat must come
 	// back, in order, whatever its alpha byte is
 	var sweep []splatDesc
